@@ -65,6 +65,7 @@ pub uninterp spec fn str_lower(s: Seq<char>) -> Seq<char>;
 pub uninterp spec fn str_upper(s: Seq<char>) -> Seq<char>;
 pub uninterp spec fn str_ascii_lower(s: Seq<char>) -> Seq<char>;
 pub uninterp spec fn str_ascii_upper(s: Seq<char>) -> Seq<char>;
+pub assume_specification [String::as_bytes] (s: &String) -> (r: &[u8]) ensures r@ == vstd::utf8::encode_utf8(s@);
 pub assume_specification [str::trim] (s: &str) -> (r: &str) ensures r@ == str_trim(s@), r@.len() <= s@.len();
 pub assume_specification [str::trim_start] (s: &str) -> (r: &str) ensures r@ == str_trim_start(s@), r@.len() <= s@.len();
 pub assume_specification [str::trim_end] (s: &str) -> (r: &str) ensures r@ == str_trim_end(s@), r@.len() <= s@.len();
